@@ -114,6 +114,69 @@ def run_program(spec, steps, out, label="program", max_viol=4):
                                   "detail": {"spec": spec.d, "steps": steps, "exception": repr(ex)[:300]}})
 
 
+def run_design(design, steps, out, label="scattered"):
+    """The same program scattered over a module tree, with split signals driven from several
+    modules and domains (per-bit drivers in different simulator processes): simulator vs reference."""
+    from amaranth.hdl import Cat
+    from amaranth.sim import Simulator
+    from .. import design as D
+    try:
+        bd = D.build(design)
+        sim = Simulator(bd.top)
+    except Exception as ex:
+        if exc_origin(ex) != "repo":
+            raise
+        out["violations"].append({"mechanism": f"{label}-build-exception:{type(ex).__name__}",
+                                  "detail": {"design": design, "exception": repr(ex)[:300]}})
+        return
+    ref = D.Ref(design)
+    spec = bd.spec
+    ienv = [x[:2] for x in spec.inputs]
+    nbits = sum(w for w, s in ienv)
+    incat = Cat(*bd.inputs)
+
+    async def tb(ctx):
+        def compare(n):
+            for name, o, key in bd.outs:
+                got = ctx.get(o)
+                exp = ref.value(key)
+                w = len(o)
+                out["evaluations"] += 1
+                if (got & ((1 << w) - 1)) != (exp & ((1 << w) - 1)):
+                    kind = "split" if isinstance(key, tuple) else "signal"
+                    out["violations"].append({"mechanism": f"{label}-value-mismatch:{kind}",
+                                              "detail": {"design": design, "steps": steps[:n + 1], "step": n, "output": name,
+                                                         "simulated": got, "documented": exp}})
+                    return False
+            return True
+        if not compare(-1):
+            return
+        for n, st in enumerate(steps):
+            if st[0] == "in":
+                if nbits:
+                    ctx.set(incat, exprsim.pack(ienv, st[1]))
+                ref.set_inputs(st[1])
+            else:
+                rst = 1 if st[0] == "rst" else 0
+                if rst:
+                    ctx.set(bd.cd.rst, 1)
+                ctx.set(bd.cd.clk, 1)
+                ctx.set(bd.cd.clk, 0)
+                if rst:
+                    ctx.set(bd.cd.rst, 0)
+                ref.clock_edge(rst)
+            if not compare(n):
+                return
+    sim.add_testbench(tb)
+    try:
+        sim.run()
+    except Exception as ex:
+        if exc_origin(ex) != "repo":
+            raise
+        out["violations"].append({"mechanism": f"{label}-simulation-exception:{type(ex).__name__}",
+                                  "detail": {"design": design, "steps": steps, "exception": repr(ex)[:300]}})
+
+
 def nontrivial(spec):
     k = S.stmt_kinds(spec.stmts)
     cond = k.get("if", 0) + k.get("switch", 0) + k.get("fsm", 0)
@@ -182,6 +245,12 @@ def run_shard(spec):
             steps = make_stimulus(rng, sp, spec["steps"])
             run_program(sp, steps, out)
             out["extra"]["programs"] += 1
+            if n % 3 == 0:
+                from .. import design as D
+                design = D.scatter(sp, rng, nsplit=rng.choice([1, 2]))
+                run_design(design, steps, out)
+                out["extra"]["scattered_designs"] = out["extra"].get("scattered_designs", 0) + 1
+                out["hist"][f"scatter-modules:{len(design['tree'])}"] = out["hist"].get(f"scatter-modules:{len(design['tree'])}", 0) + 1
             kinds = S.stmt_kinds(sp.stmts)
             for k, v in kinds.items():
                 if k != "max_nest":
@@ -211,7 +280,10 @@ def replay(rec):
     setup_repo_path()
     d = rec["detail"]
     out = {"evaluations": 0, "violations": []}
-    run_program(S.Spec(d["spec"]), d["steps"], out)
+    if "design" in d:
+        run_design(d["design"], d.get("steps", []), out)
+    else:
+        run_program(S.Spec(d["spec"]), d["steps"], out)
     import json
     print(json.dumps(out["violations"], indent=1, default=str)[:3000])
     print("replay:", "VIOLATION reproduced" if out["violations"] else "no violation on this tree")
